@@ -24,7 +24,7 @@ theorem C12_ehlo_reply (s : S) (arg domain : Bytes)
   rw [← C12_caps_exact]
   unfold handleGreet
   rcases hns with h | ⟨t, h⟩ <;>
-    simp [hd, hs, popNs, h, replyB, write, emit, hcl, caps, authAllowed]
+    simp [hd, hs, popNs, h, replyB, write, emit, hcl, caps, authAllowed, setHelo, newSession, greetReply]
 
 /-- **C12_helo_none.**  HELO lists no extension: its reply is the single line `250 2.0.0 Hello <domain>`. -/
 theorem C12_helo_none (s : S) (arg domain : Bytes)
@@ -33,7 +33,7 @@ theorem C12_helo_none (s : S) (arg domain : Bytes)
     (handleGreet s false arg).1.evs.head? = some (.w (render 250 ⟨2, 0, 0⟩ ["Hello ".b ++ domain])) := by
   unfold handleGreet
   rcases hns with h | ⟨t, h⟩ <;>
-    simp [hd, hs, popNs, h, replyB, write, emit, hcl]
+    simp [hd, hs, popNs, h, replyB, write, emit, hcl, setHelo, newSession, greetReply]
 
 /-- **C12_disabled_504 (MAIL).**  A parameter of an extension the configuration disables, standing
     first in the parameter list, is refused with 504 — whatever follows it. -/
